@@ -2165,3 +2165,22 @@ Qed.
 Theorem res_init_agrees : forall alt recs,
   WFres (res_init alt recs) /\ res_names (res_init alt recs) = residue_init alt recs.
 Proof. intros. apply (res_init_fold alt recs res_empty []); [apply WFres_empty|reflexivity]. Qed.
+
+(* splitting at hidden chain ends only regroups: the strands, in order, are the chain *)
+Theorem split_at_concat : forall (A : Type) (mark : A -> bool) rs cur,
+  concat (split_at A mark cur rs) = (cur ++ rs)%list.
+Proof.
+  induction rs as [|r rest IH]; intros cur; cbn [split_at].
+  - rewrite app_nil_r. destruct cur; cbn; [reflexivity|rewrite app_nil_r; reflexivity].
+  - destruct (mark r); cbn [concat]; rewrite IH; cbn [app]; rewrite <- app_assoc; reflexivity.
+Qed.
+
+Theorem split_at_nonempty : forall (A : Type) (mark : A -> bool) rs cur s,
+  In s (split_at A mark cur rs) -> s <> [].
+Proof.
+  induction rs as [|r rest IH]; intros cur s H; cbn [split_at] in H.
+  - destruct cur; [destruct H|]. destruct H as [<-|[]]. discriminate.
+  - destruct (mark r).
+    + destruct H as [<-|H]; [destruct cur; discriminate|]. eapply IH; eauto.
+    + eapply IH; eauto.
+Qed.
